@@ -2,6 +2,7 @@
 CONSTANTS
   Classes <- ClassesDef
   Contexts <- ContextsDef
+  Alphabet <- FullAlphabet
   RegularExtra <- SemicolonExtra
   AngleGuard = TRUE
   FontFix = TRUE
